@@ -344,3 +344,36 @@ pub fn same_doc(a: &Doc, b: &Doc) -> bool {
 fn str_eq_keys(a: &Doc, x: Tok, b: &Doc, y: Tok) -> bool {
     crate::tok::str_eq(a.key_name(x), b.key_name(y))
 }
+
+/// Like `same_doc`, but a member that is absent on one side may be `null` on
+/// the other (serde-derived `Option` fields read both as `None`).
+pub fn same_doc_relaxed(a: &Doc, b: &Doc) -> bool {
+    if a.n != b.n {
+        return false;
+    }
+    let mut same = true;
+    let mut i = 0;
+    while i < a.n && i < NTOK {
+        let (x, y) = (a.toks[i], b.toks[i]);
+        let eq = if x.kind == K::Pad || y.kind == K::Pad {
+            true
+        } else if x.is_key() && y.is_key() {
+            let names = x.span == y.span && str_eq_keys(a, x, b, y);
+            if x.present == y.present {
+                names
+            } else if x.present {
+                names && is_null(a, i + 1)
+            } else {
+                names && is_null(b, i + 1)
+            }
+        } else if (x.kind == K::Seq && y.kind == K::Seq) || (x.kind == K::Map && y.kind == K::Map) {
+            x.n == y.n && x.span == y.span
+        } else {
+            // (a value inside a slot that is absent on the other side faces padding there)
+            same_leaf(a, i, b, i)
+        };
+        same = same && eq;
+        i += 1;
+    }
+    same
+}
